@@ -121,6 +121,11 @@ class Walker:
             return ("children",)
         if isinstance(e, ast.UnaryOp) and isinstance(e.op, ast.Not):
             return not self.truth(self.ev(e.operand, env))
+        if isinstance(e, ast.UnaryOp) and isinstance(e.op, ast.USub):
+            v = self.ev(e.operand, env)
+            if isinstance(v, (int, bool)):
+                return -int(v)
+            raise AnalysisError(f"decision table: negation of opaque value {unparse(e)}")
         if isinstance(e, ast.BoolOp):
             if isinstance(e.op, ast.And):
                 v = True
